@@ -163,6 +163,21 @@ func suiteHash(c *ctx) {
 			t.Cols[ci].Opts = nil
 			addEdit("retype-column", e)
 		}
+		{ // the same base type with other parameters
+			e := s.clone()
+			done := false
+			for _, t := range e.Tables {
+				for ci := range t.Cols {
+					if sib, ok := typeSibling[t.Cols[ci].Typ]; ok && !done {
+						t.Cols[ci].Typ = sib
+						done = true
+					}
+				}
+			}
+			if done {
+				addEdit("retype-parameters", e)
+			}
+		}
 		{
 			e := s.clone()
 			t := e.Tables[c.rng.Intn(len(e.Tables))]
